@@ -924,9 +924,11 @@ def submission(rng: random.Random, flavour: str = 'c39') -> Dict[str, Any]:
             script.append('S')
         elif r < 0.32:
             script.append('P')
-        elif r < (0.42 if flavour == 'c10' else 0.34):
+        elif r < (0.40 if flavour == 'c10' else 0.33):
             script.append('Q')
-        elif r < 0.46:
+        elif r < (0.46 if flavour == 'c10' else 0.35):
+            script.append('E' + rng.choice(['503', '503', '500', '404', 'timeout', 'conn']))
+        elif r < 0.50:
             script.append('J' if rng.random() < 0.6 else 'Jtimeout')
         elif r < 0.64:
             script.append('W' + rng.choice(['Success', 'Success', 'Failed', 'Error']))
